@@ -162,6 +162,11 @@ func c11Creds(r *vlib.Rand, valid []string, foreign []string) []cred {
 			cred{Name: "two_values_invalid_then_valid", Values: []string{"Bearer nope", "Bearer " + v}, Token: v, Ambiguous: true},
 			cred{Name: "two_values_both_invalid", Values: []string{"Bearer nope", "Bearer " + v[:3]}},
 			cred{Name: "token_with_nul", Values: []string{"Bearer " + v + "\x00"}, Token: v + "\x00"},
+			// a valid token followed by more: the credential is the whole remainder
+			cred{Name: "valid_then_space_and_more", Values: []string{"Bearer " + v + " x"}, Token: v + " x"},
+			cred{Name: "valid_then_second_valid", Values: []string{"Bearer " + v + " " + v}, Token: v + " " + v},
+			cred{Name: "valid_then_tab_and_more", Values: []string{"Bearer " + v + "\tsuffix"}, Token: v + "\tsuffix"},
+			cred{Name: "valid_then_comma_and_more", Values: []string{"Bearer " + v + ", Bearer nope"}, Token: v + ", Bearer nope"},
 		)
 	}
 	for _, f := range foreign {
@@ -285,7 +290,7 @@ func c11BlankSources(c *vlib.Ctx, dir string) {
 }
 
 func C11(c *vlib.Ctx) {
-	c.Rule("generated configurations (0-3 global pull tokens, 2-4 pull routes with 0-2 own tokens, 0-2 admin tokens as raw:/env:/file: refs) run through the production wiring; the queue is pre-loaded with ready and leased messages whose lease ids the caller knows; every endpoint x {dequeue, ack, nack, extend} over HTTP and gRPC and every Admin endpoint/method pair (incl. /healthz, mutations and unknown paths) is called with each credential variant (absent, empty, scheme alone, valid, prefix/suffix/+1 char/case variant, another route's token, the global token on an override route, Basic, no scheme, two values, NUL). Independent allowlist oracle: not authorized => 401/Unauthenticated and snapshot unchanged; authorized => not 401 (vacuity guard). Configurations with a pull route lacking any token must not compile. Concurrency: four callers with the valid token next to twelve with same-length near-miss tokens on the global allowlist, a route allowlist and the Admin API - every near-miss request must be answered 401. Every third configuration is probed again after a reload the process must refuse (ingress listener moved) whose file carries another token layout (all tokens replaced, or another generated layout, possibly without admin tokens): the allowlists of the running configuration stay in force and the refused file's tokens are tried as foreign ones. distinct_nontrivial = distinct (surface, operation, credential variant, authorized, outcome) classes.")
+	c.Rule("generated configurations (0-3 global pull tokens, 2-4 pull routes with 0-2 own tokens, 0-2 admin tokens as raw:/env:/file: refs) run through the production wiring; the queue is pre-loaded with ready and leased messages whose lease ids the caller knows; every endpoint x {dequeue, ack, nack, extend} over HTTP and gRPC and every Admin endpoint/method pair (incl. /healthz, mutations and unknown paths) is called with each credential variant (absent, empty, scheme alone, valid, prefix/suffix/+1 char/case variant, another route's token, the global token on an override route, Basic, no scheme, two values, NUL, a valid token followed by blank/tab/comma and more). Independent allowlist oracle: not authorized => 401/Unauthenticated and snapshot unchanged; authorized => not 401 (vacuity guard). Configurations with a pull route lacking any token must not compile. Concurrency: four callers with the valid token next to twelve with same-length near-miss tokens on the global allowlist, a route allowlist and the Admin API - every near-miss request must be answered 401. Every third configuration is probed again after a reload the process must refuse (ingress listener moved) whose file carries another token layout (all tokens replaced, or another generated layout, possibly without admin tokens): the allowlists of the running configuration stay in force and the refused file's tokens are tried as foreign ones. distinct_nontrivial = distinct (surface, operation, credential variant, authorized, outcome) classes.")
 	c.Assume("lower-case scheme spelling and a valid token in a second header value are treated as ambiguous (either answer accepted); whitespace-only variations of a valid header are not generated")
 	dir := c.Scratch()
 	c11BlankSources(c, dir)
@@ -501,7 +506,7 @@ func C11(c *vlib.Ctx) {
 							}
 						}
 						// gRPC
-						if cr.Name == "token_with_nul" {
+						if cr.Name == "token_with_nul" || cr.Name == "valid_then_tab_and_more" {
 							continue
 						}
 						ctx := context.Background()
